@@ -313,9 +313,9 @@ theorem refSendPushPromise_rp {X : List Nat} (s : Streams) (hk : KeysOK s) (pare
           exact (h4.trans (setMisc_rp s4 s4.actions (s4.refs + 1) s4.recvBufferLeaked s4.wakes s4.unsupported)).trans (refInc_rp _ _)
 
 /-- no PUSH_PROMISE is accepted: this is a server, or push is disabled -/
-def NoPush (s : Streams) : Prop := s.counts.isServer = true ∨ s.recv.isPushEnabled = false
+def RNoPush (s : Streams) : Prop := s.counts.isServer = true ∨ s.recv.isPushEnabled = false
 
-theorem recvPushPromise_noPush {s : Streams} (hp : NoPush s) (id : Nat) (h : HeadersIn) : (s.recvPushPromise id h).1 = s := by
+theorem recvPushPromise_noPush {s : Streams} (hp : RNoPush s) (id : Nat) (h : HeadersIn) : (s.recvPushPromise id h).1 = s := by
   unfold Streams.recvPushPromise
   dsimp only
   split
